@@ -6,6 +6,7 @@ import gen_r64      # noqa: F401  (registers suites)
 import gen_bsi      # noqa: F401
 import gen_kern     # noqa: F401
 import gen_ser      # noqa: F401
+import gen_alias    # noqa: F401
 
 
 def generate(suite_name, seed, scale=1.0, tier="quick"):
